@@ -37,13 +37,17 @@ func VP_C16_ReadOFF() {
 	}
 	nv := vp.Param("verts")
 	for i := 0; i < nv; i++ {
-		switch vp.Choice("vline", 3) {
+		switch vp.Choice("vline", 5) {
 		case 0:
 			text += vp.FloatTok("x") + " " + vp.FloatTok("y") + " " + vp.FloatTok("z") + "\n"
 		case 1:
 			text += "0 1\n"
 		case 2:
 			text += "0 zz 1\n"
+		case 3:
+			text += "\n"
+		case 4:
+			text += "# comment\n"
 		}
 	}
 	nf := vp.Param("faces")
@@ -116,6 +120,10 @@ func VP_C16_ReadSTLBinary() {
 // menu with symbolic numbers, cut anywhere.
 func VP_C16_ReadSTLASCII() {
 	text := "solid test\n"
+	if vp.Param("prefix") == 1 {
+		// an opened facet with two valid vertices already read
+		text += "facet normal 0 0 1\nouter loop\nvertex " + vp.FloatTok("x") + " 0 1\nvertex 0 " + vp.FloatTok("y") + " 1\n"
+	}
 	nl := vp.Param("lines")
 	for i := 0; i < nl; i++ {
 		switch vp.Choice("line", 8) {
@@ -235,6 +243,9 @@ func VP_C15_STLASCIIRead() {
 	text += "endsolid" + []string{"", " part", " a b"}[vp.Choice("endname", 3)]
 	if vp.Choice("finalnewline", 2) == 1 {
 		text += "\n"
+	}
+	if vp.Param("crlf") == 1 {
+		text = strings.ReplaceAll(text, "\n", "\r\n")
 	}
 	tris, err := ReadSTL(strings.NewReader(text))
 	vp.Assert(err == nil, "a well-formed ASCII STL is accepted")
